@@ -20,7 +20,7 @@ import (
 // the name of a declared data object reference (id ref_out -> data object do_out with an initial
 // body), and "extra", a name declared nowhere else. The consuming task reads both as data inputs
 // and its conditional outgoing flows read the data object.
-const dataOutDoc = `<?xml version="1.0" encoding="UTF-8"?>
+const DataOutDoc = `<?xml version="1.0" encoding="UTF-8"?>
 <bpmn:definitions xmlns:bpmn="http://www.omg.org/spec/BPMN/20100524/MODEL"
                   xmlns:xsi="http://www.w3.org/2001/XMLSchema-instance"
                   xmlns:olive="http://olive.io/spec/BPMN/MODEL"
@@ -67,7 +67,7 @@ const dataOutDoc = `<?xml version="1.0" encoding="UTF-8"?>
 </bpmn:definitions>`
 
 func dataOutBody() func() {
-	defs, err := schema.Parse([]byte(dataOutDoc))
+	defs, err := schema.Parse([]byte(DataOutDoc))
 	if err != nil {
 		panic(err)
 	}
